@@ -258,6 +258,80 @@ def task_histories(start, depth, chunk, nchunks):
 task_histories.contract_fn = "curves.Curve"
 
 
+# --------------------------------------------------------------------------------------
+# engine B: control points given as numpy ARRAYS (vector-valued points): a mutating operation on a RATIONAL curve must not write into the arrays the caller (or
+# another curve, or another slot of the same curve) still holds, must work for integer arrays with Fraction weights, and must keep the curve's values (D38)
+# --------------------------------------------------------------------------------------
+def task_array_points():
+    import numpy as np
+    fn = "curves.BaseCurve.apply"
+    out = []
+    U = [F(0)] * 3 + [F(1)] * 3
+    Wt = [F(1), F(2), F(3)]
+    kinds = {"float64-rows-of-a-2d-array": lambda: np.array([[1., 2.], [3., -1.], [0., 4.]]), "int64-rows-of-a-2d-array": lambda: np.array([[1, 2], [3, -1], [0, 4]]),
+             "object-fractions": lambda: np.array([[F(1), F(2)], [F(3), F(-1)], [F(0), F(4)]], dtype=object)}
+    ops = {"knot_insert[1/2]": lambda c: c.knot_insert([F(1, 2)]), "degree_increase(1)": lambda c: c.degree_increase(1), "split[1/2]": lambda c: c.split([F(1, 2)]),
+           "knot_insert[0,1] (refused)": lambda c: c.knot_insert([F(0), F(1)])}
+
+    def value(arr, u):
+        N = spec.basis(U, 2, 2, u)
+        den = sum(n_ * w for n_, w in zip(N, Wt))
+        return [sum(n_ * w * F(arr[i][d]) for i, (n_, w) in enumerate(zip(N, Wt))) / den for d in range(2)]
+    for kname, mk in kinds.items():
+        for oname, op in ops.items():
+            bad = None
+            try:
+                arr = mk()
+                keep = arr.copy()
+                c = Curve(list(U), arr, list(Wt))
+                sibling = Curve(list(U), arr, list(Wt))            # built from the same array
+                try:
+                    op(c)
+                    raised = None
+                except ValueError:
+                    raised = "ValueError"
+                if not np.array_equal(arr, keep):
+                    bad = "the caller's array was modified: %s -> %s" % (keep.tolist(), arr.tolist())
+                elif raised and "refused" not in oname:
+                    bad = "a legal request raised %s" % raised
+                elif not raised and "refused" in oname:
+                    bad = "an illegal request was accepted"
+                else:
+                    for u in (F(0), F(1, 4), F(1, 2), F(1)):
+                        exp = value(keep, u)
+                        for who, cv in (("the curve", c), ("a curve built from the same array", sibling)):
+                            got = cv(u)
+                            if any(abs(F(got[d]) - exp[d]) > F(1, 10 ** 9) for d in range(2)):
+                                bad = "%s evaluates to %s at %s, expected %s" % (who, list(got), u, [str(x) for x in exp])
+                                break
+                        if bad:
+                            break
+            except Exception as e:
+                bad = "%s: %s" % (type(e).__name__, str(e)[:100])
+            out.append(ob("%s:array-points-not-written[%s,%s]" % (fn, kname, oname), fn, FAILED if bad else PROVED, "B", "concrete", 0.0,
+                          bad or "the caller's array, a sibling curve and the curve's values are as before", dict(kind="c15.arrays", points=kname, op=oname) if bad else None))
+    # the same array OBJECT in two slots of one curve (a closed curve [p0, p1, p2, p0])
+    bad = None
+    try:
+        p0, p1, p2 = np.array([1., 2.]), np.array([3., -1.]), np.array([0., 4.])
+        U4 = [F(0)] * 3 + [F(1, 2)] + [F(1)] * 3
+        W4 = [F(5), F(2), F(3), F(1)]
+        c = Curve(list(U4), [p0, p1, p2, p0], list(W4))
+        v0 = [F(x) for x in c(F(0))]
+        c.knot_insert([F(1, 4)])
+        v1 = [F(x) for x in c(F(0))]
+        if v0 != v1 or list(p0) != [1., 2.]:
+            bad = "C(0) changed from %s to %s (p0 is now %s)" % ([str(x) for x in v0], [str(x) for x in v1], list(p0))
+    except Exception as e:
+        bad = "%s: %s" % (type(e).__name__, str(e)[:100])
+    out.append(ob("%s:array-points-not-written[same-array-in-two-slots,knot_insert]" % fn, fn, FAILED if bad else PROVED, "B", "concrete", 0.0,
+                  bad or "a point object used twice is not scaled twice", dict(kind="c15.arrays", points="same-array-in-two-slots", op="knot_insert") if bad else None))
+    return out + [{"_stats": dict(cases=len(out))}]
+
+
+task_array_points.contract_fn = "curves.BaseCurve.apply"
+
+
 def task_copies():
     fn = "curves.BaseCurve.__copy__"
     out = []
@@ -361,7 +435,7 @@ task_find_roots_length.contract_fn = "heavy.find_roots"
 def tasks(tier, seed):
     from ..pyvc.driver import verify
     from ..contracts import curvesv
-    ts = [(task_frames, ()), (task_copies, ()), (task_find_roots_length, ()), (task_float_operands, ())]
+    ts = [(task_frames, ()), (task_copies, ()), (task_find_roots_length, ()), (task_float_operands, ()), (task_array_points, ())]
     ts += curvesv.tasks_for({q for _c, _m, q, _v in curvesv.ALL if q not in ("Curve.eval", "norm")})
     from ..contracts import facade2
     # "KnotVector arithmetic returns deep copies": every non-in-place operator, copy and deepcopy return a new object and leave the operand alone (all vectors)
@@ -387,6 +461,9 @@ def tasks(tier, seed):
 
 def replay(o):
     w = o["witness"]
+    if w["kind"] == "c15.arrays":
+        r = [x for x in task_array_points() if "id" in x and x["id"].endswith("[%s,%s]" % (w["points"], w["op"]))][0]
+        return r["status"] == FAILED, "caller's array, sibling curve and values unchanged", r["detail"]
     if w["kind"] == "c15.float":
         r = [x for x in task_float_operands() if "id" in x and ("[%s]" % w["label"]) in x["id"]][0]
         return r["status"] == FAILED, "operands unchanged", r["detail"]
